@@ -2,6 +2,7 @@ package mon
 
 import (
 	"fmt"
+	"strings"
 	"sync"
 
 	"verif/internal/xdoc"
@@ -28,6 +29,7 @@ func init() {
 			witnessFamily("C11"),
 			{Name: "pairs", N: tierN(240, 6000), Run: c11Pairs},
 			{Name: "big", N: tierN(40, 120), Run: c11Big},
+			{Name: "seqlists", N: func(string) int { return 6 + 36 + 216 + 1296 }, Run: c11SeqLists},
 			{Name: "rand", N: tierN(150000, 8000000), Run: c11Random},
 		},
 	})
@@ -155,7 +157,11 @@ func c11Random(c *Case) {
 			return s
 		}
 		p := g.FreePath(1+g.Intn(2), names)
-		p.Steps = append(p.Steps, &xref.Step{Seq: []*xref.Step{alt(), alt()}})
+		seq := []*xref.Step{alt(), alt()}
+		for len(seq) < 6 && g.Chance(0.4) {
+			seq = append(seq, alt()) // p/(a, b, c, ...): every listed step contributes
+		}
+		p.Steps = append(p.Steps, &xref.Step{Seq: seq})
 		if g.Chance(0.3) {
 			p.Steps = append(p.Steps, g.FreeStep(names))
 			setOnly = true
@@ -352,4 +358,50 @@ func c11Big(c *Case) {
 	c.SampleEvery(7, func() interface{} {
 		return map[string]interface{}{"family": "big", "fan": fan, "expr": src, "pairs_with_position_delta": []int{256, 512, 255, 257, 65536}}
 	})
+}
+
+// c11SeqLists: EVERY list of 1-4 steps drawn from six step forms in the sequence form p/(s1, ..., sk), under
+// three prefixes, on a document where each form selects nodes that no other form selects (and two forms overlap):
+// the delivery must be the union of the k single-step paths, each node once.
+var c11SeqDoc = xdoc.MustParseXML(`<r><e x="1"><a/>t<b/><c/><a/><!--k--><d><a/></d></e><e><b/><c y="2"/></e><f><a/><c/></f></r>`, false)
+var c11SeqForms = []string{"a", "b", "c", "@x", "text()", "*"}
+
+func c11SeqLists(c *Case) {
+	i := c.Index
+	var list []string
+	for n, size := 1, 6; n <= 4; n, size = n+1, size*6 {
+		if i < size {
+			for k := 0; k < n; k++ {
+				list = append(list, c11SeqForms[i%6])
+				i /= 6
+			}
+			break
+		}
+		i -= size
+	}
+	for _, prefix := range []string{"//e", "/r/e", "/r/*"} {
+		src := prefix + "/(" + strings.Join(list, ", ") + ")"
+		ast := mustParse(src)
+		want, ok, why := refNodeSet(ast, xref.NewCtx(c11SeqDoc.Root))
+		if !ok {
+			panic("C11 seqlists: " + why)
+		}
+		ce := c.compile(src, func() map[string]interface{} { return docDetail(c11SeqDoc, c11SeqDoc.Root) })
+		if ce == nil {
+			return
+		}
+		got := c.RunSelect(ce, c11SeqDoc.Root)
+		gs, dup := AsSet(got.Nodes)
+		if got.Aborted() || dup || !SameNodes(gs, want) {
+			dd := docDetail(c11SeqDoc, c11SeqDoc.Root)
+			dd["expr"], dd["expected"], dd["observed_sequence"], dd["abort"] = src, xdoc.Labels(want), xdoc.Labels(got.Nodes), fmt.Sprint(got.Panic.String(), got.Budget)
+			c.Violation("SEQUENCE-FORM-IS-NOT-THE-UNION-OF-ITS-STEPS", dd)
+			return
+		}
+		c.Count("seqlists")
+		if len(list) >= 2 && len(want) > 0 {
+			c.Nontrivial("seq|" + src)
+		}
+	}
+	c.SampleEvery(97, func() interface{} { return map[string]interface{}{"family": "seqlists", "steps": list} })
 }
